@@ -24,6 +24,17 @@ impl Sleep {
     pub fn deadline_ns(&self) -> u64 {
         self.deadline
     }
+    /// tokio's `Sleep::reset`: a new deadline for the same timer; the next poll registers it
+    pub fn reset(mut self: Pin<&mut Self>, deadline: Instant) {
+        self.deadline = deadline.0;
+        self.registered = false;
+    }
+    pub fn deadline(&self) -> Instant {
+        Instant(self.deadline)
+    }
+    pub fn is_elapsed(&self) -> bool {
+        simkit::now_ns() >= self.deadline
+    }
 }
 
 impl Future for Sleep {
